@@ -490,7 +490,14 @@ def binding_program(form, stale, stmt, op, ca, sa, cb, sb, probe=False):
         if form == "walrus-inline":
             expr = "((a := %s), (b := %s))" % (sa, sb)
     lines = []
-    if stale:
+    if stale == "same":
+        # an earlier binding of the SAME class but another shape (round 5, seed C19_I: a re-bound variable kept its
+        # old type whenever the new one counted as a subtype of it, e.g. a tuple of another length)
+        def other_rep(cls, src):
+            reps = [r for r in REPS[cls] if r != src]
+            return sorted(reps, key=len, reverse=True)[0]
+        lines += ["a = %s" % other_rep(ca, sa), "b = %s" % other_rep(cb, sb)]
+    elif stale:
         other = [c for c in CORE if c != ca and c != cb]
         sc_a, sc_b = (cb, ca) if ca != cb else (other[0], other[1])
         lines += ["a = %s" % REPS[sc_a][0], "b = %s" % REPS[sc_b][0]]
